@@ -384,6 +384,16 @@ fn request_case<const N: usize>(c: &mut Ctx, name: &str, k: usize, mi: usize) {
                 subs.push(("identity", wire::g1_identity_bytes().to_vec()));
                 if let Some(p) = refs::g1(&orig) {
                     subs.push(("negated", (-p).to_compressed().to_vec()));
+                    // shifted by the order-3 point (0, 2): outside the prime-order group, so it must not even
+                    // decode; if it does, the Schnorr equation cannot see the shift whenever c = 0 mod 3
+                    let mut t3 = [0u8; 48];
+                    t3[0] = 0x80;
+                    let t3p: Option<G1Affine> = Option::from(G1Affine::from_compressed_unchecked(&t3));
+                    if let Some(t3p) = t3p {
+                        use group::Curve;
+                        let sh = (bls12_381::G1Projective::from(p) + bls12_381::G1Projective::from(t3p)).to_affine();
+                        subs.push(("shifted-by-order-3-point", sh.to_compressed().to_vec()));
+                    }
                 }
             }
             _ => {}
@@ -468,6 +478,59 @@ impl<T: serde::de::DeserializeOwned> DecodeProbe<T> {
     }
 }
 
+/// A signer key whose encoding was corrupted so that one (Y_i, Y~_i) pair is the identity: if the
+/// decoder lets it in, requests served under it are judged like all others.
+fn corrupted_signer_key_case(c: &mut Ctx) {
+    c.case("corrupted-signer-key", |c| {
+        let mut rng = c.rng("corrupted-signer-key");
+        let kp = KeyPair::<3>::new(&mut rng);
+        let t = match trace(&kp) {
+            Ok(t) => t,
+            Err(e) => return c.inconclusive(&e),
+        };
+        for i in 0..3usize {
+            for which in ["both", "g2-half-only", "g1-half-only"] {
+                let mut tr = t.clone();
+                let r1 = if which != "g2-half-only" { tr.fset(&format!("pk/y1s/[{}]", i), &wire::g1_identity_bytes()) } else { Ok(()) };
+                let r2 = if which != "g1-half-only" { tr.fset(&format!("pk/y2s/[{}]", i), &wire::g2_identity_bytes()) } else { Ok(()) };
+                if r1.is_err() || r2.is_err() {
+                    return c.inconclusive("C08: key pair layout");
+                }
+                c.eval();
+                c.distinct(&format!("corrupted-signer-key/{}/{}", i, which));
+                let kp2: KeyPair<3> = match dec(&tr.bytes) {
+                    Ok(k) => k,
+                    Err(_) => {
+                        c.count("corrupted_signer_keys_refused_at_decode", 1);
+                        continue;
+                    }
+                };
+                c.count("corrupted_signer_keys_decoded", 1);
+                // an honest request under that key
+                let vals = [Scalar::random(&mut rng), Scalar::random(&mut rng), Scalar::random(&mut rng)];
+                let pk2 = kp2.public_key();
+                let b = SignatureRequestProofBuilder::<3>::generate_proof_commitments(&mut rng, Message::new(vals), &[None; 3], pk2);
+                let ch = ChallengeBuilder::new().with(&b).finish();
+                let bf = b.message_blinding_factor();
+                let proof = b.generate_proof_response(ch);
+                if let Some(v) = proof.verify_knowledge_of_opening(pk2, ch) {
+                    let sig = v.blind_sign(&kp2, &mut rng).unblind(bf);
+                    let own = sig.verify(pk2, &Message::new(vals));
+                    let mut changed = vals;
+                    changed[i] += Scalar::one();
+                    let other = sig.verify(pk2, &Message::new(changed));
+                    if !own || other {
+                        c.violation(
+                            &format!("C08 signature-under-decoded-key-does-not-bind coordinate={} corrupted={}", i, which),
+                            json!({"verifies_on_requesters_tuple": own, "verifies_on_tuple_with_coordinate_changed": other}),
+                        );
+                    }
+                }
+            }
+        }
+    });
+}
+
 fn unproven_value_case(c: &mut Ctx) {
     use zkchannels_crypto::pointcheval_sanders::VerifiedBlindedMessage;
     c.case("blind-signable-value-without-proof", |c| {
@@ -497,6 +560,7 @@ fn unproven_value_case(c: &mut Ctx) {
 
 pub fn run(c: &mut Ctx) {
     unproven_value_case(c);
+    corrupted_signer_key_case(c);
     c.note(
         "rule",
         json!("One case per (N in {1,2,3,5,8,13}, key pair, message number). Message entries from EDGE={0,1,q-1,small,2^63-1,2^63,random} (numbers 0-6 constant class, 7-13 cyclic layouts, 14+ random class per coordinate); conjunction commitment scalars none / every other one / all with a zero (by message number); challenge over the first message alone / plus the key / plus a context string. Honest: builder -> challenge -> proof, the verifier recomputes the challenge from the proof, verify_knowledge_of_opening must be Some, its value is blind-signed and unblinded with message_blinding_factor(); ps_verify_ref (and Signature::verify) must accept the requester's message and reject one change per coordinate (+1 / random / other EDGE value / -1, rotating). Extras: the proof's commitment atom equals pedersen_ref_g1(g1, Y1..YN; message, blinding factor) and the bytes of Message::blind. Tampered: every non-length atom of the proof bytes replaced by another valid value, +1 (scalars), identity and negation (points), the same atom of a second honest request; commitments exchanged; challenge with extra bytes / other variant / of the second request / over another key; the whole second proof; another public key: all must give None (second request under its own challenge is the positive twin). Distinct = (N, key, message classes, commitment-scalar variant, challenge variant, check or tamper@atom)."),
